@@ -14,8 +14,10 @@ CLASS_NAMES = {"halton": "HaltonSampler", "rseq": "RSequenceSampler", "uniform":
 
 # ---- search spaces ---------------------------------------------------------------------------------------------------
 @st.composite
-def space_spec(draw, min_d=1, max_d=6, max_m=300):
+def space_spec(draw, min_d=1, max_d=6, max_m=300, wide=False):
     d = draw(st.integers(min_d, max_d))
+    if wide and draw(st.integers(0, 7)) == 0:
+        d = draw(st.integers(10, 13))   # two-digit parameter indices (column names, orderings)
     lo, hi, prec = [], [], []
     for _ in range(d):
         scale = draw(st.sampled_from([1.0, 1.0, 0.1, 10.0, 1e-3, 1e3, 1e-6, 1e6]))
